@@ -8,6 +8,8 @@ BUDGET = {"quick": 700, "thorough": 12000}
 def explore(res, scale=1, seed=None):
     seed = res.seed if seed is None else seed
     colfam.run_family(res, "c01", BUDGET[res.tier] * scale, seed, builds=("default", "purego"))
+    # String values beyond the reader's 1 MiB growth step, plain and nested, typed and inferred (direct oracle)
+    colfam.run_family(res, "c01long", 15, seed, builds=("default",), sample=False)
     # documented type equivalences at block level (aliased spellings; direct oracle)
     colfam.run_family(res, "c01alias", 150 * scale, seed, builds=("default",), sample=False)
     # block level, typed targets and Results.Auto (automatic inference wherever the type is inferable), revisions on both
